@@ -171,6 +171,9 @@ EXPORT char *_gets_s_chk(char *restrict dest, rsize_t dmax,
 #ifdef SAFECLIB_STR_NULL_SLACK
             memset(dest, 0, dmax);
 #endif
+        } else {
+            /* end-of-file before any character, or a read error */
+            *dest = '\0';
         }
     }
 
